@@ -28,7 +28,12 @@ RECURSIVE OversizeLeaf(_)
 OversizeLeaf(c) ==
     IF c.kind = "compound"
     THEN LET bad == {i \in 1..Len(c.members) : TooBig(c.members[i])} IN OversizeLeaf(c.members[Min(bad)])
-    ELSE IF c.kind \in {"tfb", "pfb"} THEN c.kind \o "/" \o c.fci.f ELSE c.kind
+    \* feedback: "+padding" when the packet without its padding would still fit (the FCI builders with a limit of
+    \* their own - FIR, NACK - can only get there through the padding; more entries than that limit is another defect)
+    ELSE IF c.kind \in {"tfb", "pfb"}
+         THEN c.kind \o "/" \o c.fci.f
+              \o (IF c.fci.f \in {"fir", "nack"} /\ Size([c EXCEPT !.padding = 0]) <= MaxBytes THEN "+padding" ELSE "")
+         ELSE c.kind
 FindingClass(ev) ==
     IF /\ ev.op \in {"calc_size", "write_into", "write_twice"}
        /\ ~IsNone(bld.cfg) /\ LocalRules(bld.cfg) = {} /\ TooBig(bld.cfg)
